@@ -583,6 +583,17 @@ def model_check(ev, tier, work, vd):
         ("IndMap", "ISpec", dict(ND=2, A=2, Inf=9999, DevIndPunchRange="FALSE", MaxPunches=2), ["MapUpdatedExactly"], [], None, False),
         ("IndMap", "ISpec", dict(ND=2, A=2, Inf=9999, DevIndPunchRange="TRUE", MaxPunches=1), ["MapUpdatedExactly"], [], None, True),
     ]
+    # space accounting: the allocation protocols keep every unit in exactly one place, in memory and on disk after close; the
+    # protocols are instances of the relations conjoined with the trace lines (RefinesRelations); each named deviation alone
+    # must break an invariant, and the conformance configuration (DevFallocLeak on) still refines the relations
+    SA_INV = ["Conservation", "NoLeak", "DiskRecorded", "NeverNegative"]
+    sa = lambda **dev: dict(NOwn=2, Units=7 if not q else 6, MaxFree=6 if not q else 5, MaxMeta=2, RootSlots=4, LeafCap=84, AddrPB=256,
+                            **{k: ("TRUE" if dev.get(k) else "FALSE") for k in ("DevFallocLeak", "DevWriteLeak", "DevRangeNotDirty")})
+    runs.append(("SpaceAcct", "SSpec", sa(), SA_INV, ["RefinesRelations"], None, False))
+    runs.append(("SpaceAcct", "SSpec", sa(DevFallocLeak=1), ["NoLeak"], [], None, True))
+    runs.append(("SpaceAcct", "SSpec", sa(DevFallocLeak=1), ["Conservation", "DiskRecorded", "NeverNegative"], ["RefinesRelations"], None, False))
+    runs.append(("SpaceAcct", "SSpec", sa(DevWriteLeak=1), ["NoLeak"], [], None, True))
+    runs.append(("SpaceAcct", "SSpec", sa(DevRangeNotDirty=1), ["DiskRecorded"], [], None, True))
     if not q:
         runs.append(("ExtentMap", "ESpec", dict(MaxL=5, MaxP=7, MaxLenInit=4, MaxLenUninit=3, C=2, Inf=99, DevEmptyUnmap="FALSE"), EM_INV, [], None, False))
         runs.append(("IndMap", "ISpec", dict(ND=3, A=3, Inf=9999, DevIndPunchRange="FALSE", MaxPunches=1), ["MapUpdatedExactly"], [], None, False))
@@ -915,14 +926,19 @@ def run(tier):
         run_maps(b, drv, tier, work, ev, vd, rng)
         ev.cov["rule"] = ("histories over {write, setsize, punch, falloc x4 modes, read, flush, reopen, remount} on 2 files / 7 cut points, concretised by the "
                           "boundary tables of each profile (block +-1, cluster +-1, 12 / 12+A logical blocks, leaf capacity 4 / (bs-12)/12, inline 60 / limit) plus seeded "
-                          "picks from the boundary catalogue; non-trivial = history with a partial-block overwrite of written data AND a truncate/punch cutting "
-                          "into written data; distinct by (profile, table, operation sequence)")
+                          "picks from the boundary catalogue; plus the two families SpaceAcct enumerates (Emit_SpaceLadder): the ENOSPC ladder = situation "
+                          "{root_full, leaf_full, index_full, ind, dind} x r in 0..6 free units x operation {W1, W2, F1u, F2z}, and the session shapes = ordered pairs of "
+                          "{W, FU, FZ, FK} x 2 files, one per open..close session; every line also carries the space-accounting record; non-trivial = history with a "
+                          "partial-block overwrite of written data AND a truncate/punch cutting into written data; distinct by (profile, table, operation sequence)")
         ev.cov["checker_cmd"] = "TRACE=<chunk> tlc -workers 1 -config spec/Trace_FileData.cfg spec/Trace_FileData.tla (POSTCONDITION TraceAccepted)"
         ev.assumptions = [
             "ext2fs_punch / ext2fs_fallocate are issued while no ext2_file_t is open on the inode (the driver closes and reopens the handle around them), as fuse2fs and debugfs do",
             "ext2fs_fallocate is not issued with FORCE_INIT without ZERO_BLOCKS (exposes stale blocks by design; no in-tree caller does it)",
             "a short write is retried from where it stopped; an operation failing with the ENOSPC class taints that file (its content is no longer compared), any other error must leave the state unchanged",
             "consistency oracle = e2fsck -fn exit status of the built tree (single function consistency_oracle; the independent reader plugs in there)",
+            "space accounting follows files 0, 1 and the ballast; everything in use before the first operation (the template made by mke2fs, the filler file, the root directory) is the base and is only required to stay marked",
+            "ENOSPC ladder: a spurious ENOSPC (failure although enough units are free) is not a violation of the property text; the check only requires that every ladder column shows a success and a failure (else CHECK-BROKEN)",
+            "known finding DevFallocLeakOnInsertFail: Trace_FileData.cfg has SpaceAcct!DevFallocLeak = TRUE; behaviours accepted only through that branch are listed by TLC and printed as KNOWN-FINDING",
         ]
         return vd.finish()
     finally:
@@ -944,11 +960,14 @@ def replay(path):
         r = execute((b, drv, tm[pn], work, 0, pn, rp["tables"], rp["script"], rp.get("meta", {})))
         if r.get("broken"):
             die_broken(r["broken"])
-        mod, cfg = os.path.join(SPEC, "Trace_FileData.tla"), os.path.join(SPEC, "Trace_FileData.cfg")
+        # the replay is judged with the property invariant NoFallocLeak listed, so that a known finding shows as what it is
+        mod, cfg = os.path.join(SPEC, "Trace_FileData.tla"), os.path.join(SPEC, "Trace_FileData_strict.cfg")
         rej, matched, inv, tail, _ = tracecheck.confirm(r["trace"], mod, cfg, work)
         if r["crash"] or rej:
             k = (matched if matched is not None else 0) - 1
-            print("diverges at operation %s: %s %s" % (k, bad_detail(r["raw"], k), r["crash"] or ""))
+            if rej and inv and k > 0:
+                k -= 1
+            print("diverges at operation %s%s: %s %s" % (k, (" (invariant %s)" % inv) if inv else "", bad_detail(r["raw"], k), r["crash"] or ""))
             if r["detail"]:
                 print(r["detail"])
             print("VIOLATION property=%s replay=%s" % (PID, path)); return 1
